@@ -657,20 +657,22 @@ def gen_params_text(repo, gen_inc, builddir):
         return "[%s]" % "; ".join("(%s%%nat, %s, %s%%nat)" % (t, "true" if v == "t" else "false", s) for t, v, s in looks)
     looks = attempt("MUGGLE_OPENSSL_D_ENCRYPT", lookups, "[]")
 
-    def shifts(name):
-        m = re.search(name + r"\[16\]\s*=\s*\{([^}]*)\}", dsrc)
-        if not m: raise ValueError("array not found")
-        v = [int(x.strip().rstrip("L")) for x in m.group(1).split(",") if x.strip()]
-        if len(v) != 16: raise ValueError("expected 16 entries")
-        return "[%s]%%nat" % ";".join(map(str, v))
-    sh1 = attempt("shifts1", lambda: shifts("shifts1"), "[]")
-    sh2 = attempt("shifts2", lambda: shifts("shifts2"), "[]")
+    def rotations():
+        # evaluated from the index arithmetic of the C text (clang AST), whatever way the amounts are written
+        from props import c12_slice as S
+        flags = ["-std=gnu11", "-I" + repo, "-I" + gen_inc, "-DNDEBUG", "-DMUGGLE_C_EXPORTS"]
+        r, l = S.rotation_schedule(des_c, "muggle_openssl_des_set_key_unchecked", flags)
+        if any(not (0 <= x < 32) for x in r + l): raise ValueError("rotation amount outside 0..31")
+        return "[%s]%%nat" % ";".join(map(str, r)), "[%s]%%nat" % ";".join(map(str, l))
+    sh1, sh2 = attempt("key-schedule rotation amounts", rotations, ("[]", "[]"))
 
     def tab(name, rs):
         return "Definition %s : list (list N) :=\n  [ %s ].\n" % (name, ";\n    ".join("[" + ";".join(str(v) for v in r) + "]" for r in rs))
     txt = ["(* GENERATED by lib/props/c12.py gen_params from muggle/c/crypt/openssl/openssl_des.c and openssl_aes.c",
            "   on every run; do not edit.  Tables are printed by a C program that #includes the .c file; the",
-           "   PERM_OP sequences, lookup order, shift schedule and the straight-line circuits are read from the source text",
+           "   PERM_OP sequences, lookup order and the straight-line circuits are read from the source text; the per-round rotation",
+           "   amounts of the DES key schedule are evaluated from the index arithmetic of the clang AST (lib/props/c12_slice.py",
+           "   rotation_schedule: two tables, one table and 28 - n, a bit mask with if / else ... give the same lists)",
            "   (calls of same-file static helpers are followed). *)",
            "From Coq Require Import List NArith ZArith Bool String.", "From MV Require Import C12.Bitvec Lib.Leaf.", "Import ListNotations.", "Local Open Scope N_scope.", "",
            tab("des_sptrans", rows[:8]), tab("des_skb", rows[8:]),
@@ -1715,7 +1717,10 @@ TRUSTED_BASE = [
     "(coq/gen/Params_C12.v).  What is trusted there: the hand transcription of the control structure of openssl_des.c into "
     "Impl_DES.v (macro bodies, statement order, C integer typing) - checked on every run by comparing the key schedule bytes "
     "left in the public context structures with the model's, and by the API-level differential run - and the text extractor "
-    "of lib/props/c12.py (regular expressions over the macro bodies; a C program for the tables)",
+    "of lib/props/c12.py (regular expressions over the macro bodies; a C program for the tables; the per-round rotation amounts "
+    "of DES_set_key_unchecked by lib/props/c12_slice.py rotation_schedule, which walks the clang AST of the function with data "
+    "opaque and index arithmetic evaluated - counting loops run, constant tables and locals followed - and records every "
+    "(X >> A) | (X << B): the two variables rotated once per round give des_shifts1 / des_shifts2 however the amounts are written)",
     "AES: all of crypt/openssl/openssl_aes.c is modelled as coded (Impl_AES.v) and PROVED equal to FIPS-197 (Spec_AES.v) for "
     "every 128/192/256-bit key and block, both directions (aes_impl_equals_spec, aes_inv_impl_equals_spec).  Re-extracted "
     "from the C source on every run by the small statement/expression translator of lib/props/c12.py (trusted): the "
